@@ -269,9 +269,9 @@ def parseShape : Sexp → Option VariantShape
   | _ => none
 
 def parseVariantDef : Sexp → Option VariantDef
-  | .list [.atom "var", ident, rename, .atom skip, .atom dflt, shape] => do
+  | .list [.atom "var", ident, rename, .atom skip, .atom dflt, .atom rule, shape] => do
     pure { ident := (← atomBytes? ident), rename := (← optBytes? rename), skip := skip == "1", isDefault := dflt == "1",
-           shape := (← parseShape shape) }
+           renameAll := (← ruleOf rule), shape := (← parseShape shape) }
   | _ => none
 
 def parseTypeDef : Sexp → Option TypeDef
